@@ -9,7 +9,7 @@
    session only through get_mut, so the next exchange after expiry takes the no-session path) is
    stated over the handler model, not here. *)
 From Coq Require Import List NArith Bool Lia.
-From Discv5V Require Import Model.Lru Proofs.Lru.
+From Discv5V Require Import Model.Lru Proofs.Lru Proofs.LruGap.
 Import ListNotations.
 Local Open Scope N_scope.
 
@@ -139,3 +139,38 @@ Theorem C15_spec_view_within_ttl :
     aview cfg m now k = Some v -> exists t, m k = Some (v, t) /\ now <= t + ttl cfg.
 Proof. exact aview_within_ttl. Qed.
 Print Assumptions C15_spec_view_within_ttl.
+
+(* --- "when it is reached the least recently used session is the one dropped", about histories
+       (gap audit, notes/gap_audit_C14_C20.md) -------------------------------------------------- *)
+(* C15_evicts_lru speaks about a cache STATE (list order, stored times).  This is the same clause in
+   terms of the history alone: after any history [tr] with a clock that does not go back, for
+   every capacity >= 1 and either get_mut, if the cache is full and a new key is inserted, exactly
+   one held key k0 is dropped; its last use in the history (its insertion or its last successful
+   get / get_mut) is not later than the last use of any other held key; all other entries are
+   kept and the new one is held. *)
+Theorem C15_evicts_least_recently_used_history :
+  forall fixed cfg tr k v now,
+  mono tr -> last_time 0 tr <= now -> 1 <= capacity cfg ->
+  let c := fst (run fixed cfg tr) in
+  let outs := snd (run fixed cfg tr) in
+  len c = capacity cfg -> find c k = None ->
+  exists k0 v0 t0,
+    find c k0 = Some (v0, t0) /\ find (insert cfg c k v now) k0 = None /\
+    last_use_time tr outs k0 None = Some t0 /\
+    (forall k' v' t', find c k' = Some (v', t') ->
+       last_use_time tr outs k' None = Some t' /\ t0 <= t') /\
+    (forall k', k' <> k0 -> k' <> k -> find (insert cfg c k v now) k' = find c k') /\
+    find (insert cfg c k v now) k = Some (v, now).
+Proof. exact evicts_lru_history. Qed.
+Print Assumptions C15_evicts_least_recently_used_history.
+(* (C15_evicts_lru_example above satisfies the hypotheses: capacity 3, keys 1 2 3 inserted at 5 7 7,
+   key 1 read at 9; inserting key 4 at 20 drops key 2, last used at 7.) *)
+Example C15_evicts_least_recently_used_example :
+  let cfg := {| ttl := 100; capacity := 3 |} in
+  let tr := [(Insert 1 11, 5); (Insert 2 12, 7); (Insert 3 13, 7); (Get 1, 9)] in
+  let c := fst (run true cfg tr) in
+  mono tr /\ last_time 0 tr <= 20 /\ len c = capacity cfg /\ find c 4 = None /\
+  find c 2 = Some (12, 7) /\ find (insert cfg c 4 14 20) 2 = None /\
+  last_use_time tr (snd (run true cfg tr)) 1 None = Some 9.
+Proof. cbv zeta. split; [cbn; lia|]. vm_compute. repeat split; try reflexivity; discriminate. Qed.
+Print Assumptions C15_evicts_least_recently_used_example.
